@@ -137,15 +137,24 @@ package disruption
 
 // Completing a command: a command that did not succeed gets every candidate un-marked in the cluster
 // state (so the nodes count as capacity again), and all its candidates leave the queue.
+// C05 (budgets hold across consecutive reconcile rounds): the candidates of a command that SUCCEEDED have had their
+// deletion issued; until the informer delivers that deletion, the deletion mark in the cluster state is the only thing
+// that makes BuildDisruptionBudgetMapping count them as "being deleted" (consuming = not Ready || snMarked). So completing
+// a succeeded command must not clear any deletion mark: UnmarkForDeletion is reserved for the rollback of a command that
+// did not succeed, and no state node that was marked before the call is un-marked by it.
 //@ func (*Queue).CompleteCommand
-//@   prop C08
+//@   prop C08 C05
 //@   requires cmd != nil
 //@   repinv qInv(q)
 //@   modifies *
 //@   ghost unmarked
 //@   after (*Cluster).UnmarkForDeletion set unmarked = true
 //@   site (*Cluster).UnmarkForDeletion requires [everyCandidate] len($1) == len(cmd.Candidates) && (forall k int {$1[k]} :: 0 <= k && k < len($1) ==> $1[k] == cmd.Candidates[k].ProviderID())
+//@   site (*Cluster).UnmarkForDeletion requires [onlyOnRollback] !cmd.Succeeded
 //@   ensures [failedCommandsUnmarked] !old(cmd.Succeeded) ==> unmarked
+//@   ensures [succeededNeverUnmarked] old(cmd.Succeeded) ==> !unmarked
+//@   ensures [succeededStayMarked] old(cmd.Succeeded) ==> (forall n *state.StateNode {n.markedForDeletion} :: old(n.markedForDeletion) ==> n.markedForDeletion)
+//@   ensures [outcomeKept] cmd.Succeeded == old(cmd.Succeeded)
 //@   ensures [dequeued] forall k int {cmd.Candidates[k]} :: 0 <= k && k < len(cmd.Candidates) ==> !(cmd.Candidates[k].ProviderID() in q.ProviderIDToCommand)
 //@   loop 1 invariant forall k int {cmd.Candidates[k]} :: 0 <= k && k <= $i ==> !(cmd.Candidates[k].ProviderID() in q.ProviderIDToCommand)
 //@   loop 1 invariant (!old(cmd.Succeeded) ==> unmarked) && cmd.Candidates == loopentry(cmd.Candidates) && q.ProviderIDToCommand == loopentry(q.ProviderIDToCommand) && qInv(q)
